@@ -7,15 +7,20 @@ from vt import loader, sched
 
 LEVEL = 'other'
 EXPLANATION = (
-    'CrossHair (symbolic execution, z3) runs the real hailtop.utils.rate_limiter.RateLimiter.__aenter__ for up to k '
+    'CrossHair (symbolic execution, z3) runs the real hailtop.utils.rate_limiter.RateLimiter (`async with limiter:`) for up to k '
     'concurrent entry tasks on the real asyncio scheduler under a director-controlled integer clock: time.time and '
     'asyncio.sleep are replaced in the module namespace by a virtual clock / timer list. count, the window length, every '
-    'clock advance dt_s (so every arrival instant and every wake-up lateness), whether an entry arrives at step s and '
-    'whether a coinciding arrival runs before or after the woken sleepers are symbolic. Asserted: no half-open window of '
-    'the configured length holds more than count admissions; an entry sleeps only when the window is full, for a positive '
-    'time that never reaches past the first instant with room; every entry is eventually admitted. Only "Confirmed over '
-    'all paths" discharges a shard. Bounded: quick k=5 steps/entries, count 1..2; thorough k=6 and k=7, count 1..3; '
-    'window 1..8, advances 0..10 (integers).'
+    'clock advance dt_s (so every arrival instant and every wake-up lateness) and the action of every step are symbolic. '
+    'Two schedule families: (1) bodies end at once: per step an optional arrival, before or after the woken sleepers; '
+    '(2) held bodies: an admitted entry stays inside its `async with` body until the director acts; per step one of nothing / '
+    'arrival / entry i leaves its body normally or by raising / Task.cancel() of entry i (inside its body, sleeping in '
+    '__aenter__, woken but not yet resumed, not yet run), before or after the woken sleepers. Asserted: no half-open window of '
+    'the configured length holds more than count admissions, where an admission is counted from the instant __aenter__ '
+    'returned whatever happens to the entry afterwards; an entry sleeps only when the window is full, for a positive '
+    'time that never reaches past the first instant with room; every entry that is not cancelled is eventually admitted, even '
+    'while every admitted entry is still inside its body. Only "Confirmed over all paths" discharges a shard. Bounded: quick '
+    'family 1 k=5 steps, family 2 k=4 steps, count 1..2; thorough family 1 k=6 and k=7, count 1..3, family 2 k=4 (count 1..3) and '
+    'k=5 (count 1..2, arrivals run in their own step); window 1..8, advances 0..10 (integers).'
 )
 SRC = 'hail/python/hailtop/utils/rate_limiter.py'
 HM = 'harness.C24_rate'
@@ -90,20 +95,37 @@ def run(R):
         groups.append(sched.gen_shards('C24_k5', HM, params(5, 2), {'count': [1, 2], 'e1': B}, entry=('check_5', 'reach_5'),
                                        prefix='k5_', meta={'k': 5})[1])
         groups += hold_groups(4, 2, 'q', 1)
-        R.bounds = {'steps': 5, 'entries': '<= 5', 'count': '1..2', 'window': '1..8', 'clock advance per step': '0..10'}
+        R.bounds = {'bodies end at once': 'k=5 steps, <= 5 entries (arrivals, clock advances, orders symbolic)',
+                    'held bodies': 'k=4 steps, <= 4 entries; per step a clock advance and one action of: nothing / arrival / entry i '
+                                   'leaves its body (normally or by raising) / entry task i is cancelled (in its body, sleeping in '
+                                   '__aenter__, woken but not resumed, not run yet); all symbolic',
+                    'count': '1..2', 'window': '1..8', 'clock advance per step': '0..10'}
     else:
         pct = 1300
         groups.append(sched.gen_shards('C24_k6', HM, params(6, 3), {'count': [1, 2, 3], 'e1': B, 'e2': B},
                                        entry=('check_6', 'reach_6'), prefix='k6_', meta={'k': 6})[1])
         groups.append(sched.gen_shards('C24_k7', HM, params(7, 3), {'count': [1, 2, 3], 'e1': B, 'e2': B, 'e3': B},
                                        entry=('check_7', 'reach_7'), prefix='k7_', meta={'k': 7})[1])
-        R.bounds = {'steps': '6 and 7', 'entries': '<= 7', 'count': '1..3', 'window': '1..8', 'clock advance per step': '0..10'}
+        groups += hold_groups(4, 3, 't', 1)
+        groups += hold_groups(5, 2, 't', 2, const={f'g{i}': True for i in range(4)})
+        R.bounds = {'bodies end at once': 'k=6 and k=7 steps, <= 7 entries, count 1..3',
+                    'held bodies': 'k=4 steps, count 1..3, everything symbolic; k=5 steps, count 1..2, every arrival runs in its own '
+                                   'step (no cancel of a task that has not run yet); per step a clock advance and one action of: '
+                                   'nothing / arrival / entry i leaves its body (normally or by raising) / entry task i is cancelled',
+                    'window': '1..8', 'clock advance per step': '0..10'}
     R.assume('the clock is integer-valued: the algorithm only adds, subtracts and compares times; rounding of a float '
              'time.time() (e.g. now - window_seconds losing low bits) is outside the claim',
              'time.time is stubbed by the director clock; asyncio.sleep(d) by a virtual timer that wakes the sleeper at the '
              'first director step whose clock is >= now+d (exactly at the deadline on some paths, late on others)',
-             'the clock moves only between steps; each step is drained to quiescence; an arrival coinciding with a wake-up '
-             'runs before or after the woken sleepers (symbolic)',
+             'the clock moves only between steps; each step is drained to quiescence (held-body family: a symbolic bit lets an '
+             'arrival stay un-run until the next step, where it runs at that step\'s instant or is cancelled before it ever ran); '
+             'the action of a step coinciding with a wake-up runs before or after the woken sleepers (symbolic)',
+             'an admission is the instant __aenter__ returned (recorded by the first statement of the body); it stays counted '
+             'when the entry later leaves normally, raises or is cancelled; an entry cancelled before it was admitted is not an '
+             'admission and is not required to be admitted; cancelling a sleeper removes its virtual timer',
+             'liveness: after the last step nobody leaves a body and the clock goes from deadline to deadline; every entry that '
+             'was never cancelled must be admitted (the limiter bounds a rate, not the number of entries inside); the bodies '
+             'still held are then ended normally',
              'step 0 has an arrival (idle steps before the first arrival only shift the clock; dt_0 is symbolic)',
              '"as soon as possible" is read per instant at which the entry runs: it may sleep only when the window is full '
              'and never past the first instant with room; which of several waiters gets a freed slot is not constrained',
